@@ -74,6 +74,8 @@ def snap(o, path="", out=None, depth=0, seen=None):
         seen = seen | {id(o)}
         out[path] = "obj:" + type(o).__name__
         for k in sorted(vars(o)):
+            if k.startswith("_") and isinstance(o, darsia.Image):
+                continue  # private, lazily filled caches of an image are not pixel data, metadata or a caller's container
             snap(vars(o)[k], f"{path}.{k}", out, depth + 1, seen)
         return out
     out[path] = "r:" + type(o).__name__
